@@ -4,6 +4,7 @@ mod c03;
 mod c06;
 mod c07;
 mod c08;
+mod c10;
 mod c12;
 mod texts;
 mod evolve;
@@ -59,6 +60,7 @@ fn main() {
         "C07" => c07::run(tier, filter),
         "C08" => c08::run_c08(tier, replay.as_ref()),
         "C09" => c08::run_c09(tier, replay.as_ref()),
+        "C10" => c10::run(tier, replay.as_ref()),
         "C12" => c12::run(tier, replay.as_ref()),
         "C12-DUMP" => {
             print!("{}", c12::dump(2));
